@@ -239,6 +239,40 @@ fn su_as(s: &Snap, d: &[usize]) -> Snap {
     }
 }
 
+/// an update over `[frozen, live]` (same element counts): the gradient-free parameter's handle is
+/// left exactly as it was, the live one is replaced; and a gradient whose dimensions differ from
+/// the parameter's (hand-supplied, same element count) does not change the handle's dimensions
+pub fn optimizer_update_frozen<S: Source>(s: &mut S) {
+    let lr = s.lr();
+    let mut frozen = mk(s, &[2, 1], Dom::D4).tracked();
+    let mut live = mk(s, &[1, 2], Dom::D4).tracked();
+    let (sf, sl) = (snap(&frozen), snap(&live));
+    let y = &live * &live;
+    y.backward(None);
+    let g: Vec<Float> = live.gradient().as_ref().unwrap().values().to_vec();
+    let keep = (frozen.clone(), live.clone());
+    GradientDescent::new(lr).update(vec![&mut frozen, &mut live]);
+    unchanged(&frozen, &sf);
+    unchanged(&keep.0, &sf);
+    unchanged(&keep.1, &sl);
+    chk!(dims_eq(live.dimensions(), &[1, 2]), "[c08:update-dims] the replaced parameter changed dimensions");
+    for i in 0..2 {
+        chk!(live.values()[i] == sl.v[i] - lr * g[i], "[c08:update-value] the replaced parameter is not old - lr * gradient");
+    }
+    // a hand-supplied gradient of another (broadcast-compatible) shape with the same element count
+    let mut p = mk(s, &[2], Dom::D4).tracked();
+    let sp = snap(&p);
+    let h = s.vals(2, Dom::D4);
+    *p.gradient_mut() = Some(Array::from((vec![1, 2], h.clone())));
+    GradientDescent::new(lr).update(vec![&mut p]);
+    chk!(dims_eq(p.dimensions(), &[2]), "[c08:update-dims] the replaced parameter changed dimensions");
+    for i in 0..2 {
+        chk!(p.values()[i] == sp.v[i] - lr * h[i], "[c08:update-value] the replaced parameter is not old - lr * gradient");
+    }
+    witness();
+    forget((frozen, live, y, keep, p));
+}
+
 /// dropping other handles (a clone, a result that recorded the array) changes nothing
 pub fn drop_others<S: Source>(s: &mut S) {
     let a = mk(s, &[2], Dom::D4).tracked();
